@@ -7,6 +7,8 @@
 (*   Ctor(h)        construct: new caller-owned object, handle gets its      *)
 (*                  address and the destructor index of its class            *)
 (*   Make(h)        function returning a pointer with owner(caller)          *)
+(*   MakeArr(h)     function with an argument 'T **arg +intent(out)+owner(caller)':  *)
+(*                  a caller-owned block recorded in the array descriptor    *)
 (*   Pooled(h)      function returning a pointer with owner(caller) and a    *)
 (*                  free_pattern: must be given back to the library's pool   *)
 (*   Borrow(h)      function returning a pointer with owner(library):        *)
@@ -47,6 +49,9 @@ New(h, al) == /\ nobj < MaxObj
 Ctor(h) == New(h, "new")
 Make(h) == New(h, "new")
 Pooled(h) == New(h, "pool")
+\* an intent(out) argument 'T **arg +owner(caller)': the wrapper records the block and its release code in the
+\* array descriptor's capsule
+MakeArr(h) == New(h, "new")
 Clone(h, g) == hnd[g].addr # NoObj /\ heap[hnd[g].addr].live /\ New(h, "new")
 Borrow(h) == /\ hnd' = [hnd EXCEPT ![h] = [addr |-> LibObj, idtor |-> "none"]]
              /\ UNCHANGED <<heap, released, nobj, callerError, how>>
@@ -72,7 +77,7 @@ Release(h) == /\ IF hnd[h].addr # NoObj /\ hnd[h].idtor # "none"
               /\ hnd' = [hnd EXCEPT ![h] = [addr |-> NoObj, idtor |-> "none"]]
               /\ UNCHANGED nobj
 
-KNext == \E h \in Handles : \/ Ctor(h) \/ Make(h) \/ Pooled(h) \/ Borrow(h) \/ Method(h) \/ Dtor(h) \/ Release(h)
+KNext == \E h \in Handles : \/ Ctor(h) \/ Make(h) \/ Pooled(h) \/ MakeArr(h) \/ Borrow(h) \/ Method(h) \/ Dtor(h) \/ Release(h)
                             \/ \E g \in Handles : Clone(h, g) \/ (g # h /\ Copy(h, g))
 
 \* properties (for callers that do not release an alias twice or destroy library memory themselves)
